@@ -151,6 +151,47 @@ pub fn point(tag: &'static str, args: [u64; 3]) {
     pause(tag, args);
 }
 
+/// Reports a `KeyValueStore::write` that fails after it has been linked into the wait list.
+/// Created once the write is linked and declared after the wait guard, so that on an early return
+/// it is dropped -- and the events recorded -- before the guard unlinks: `kvs.write.failed` (a
+/// pause point; the write has failed and is still linked) and `kvs.write.abandon` (the guard
+/// unlinks next; not under the store mutex).  A write that leaves the list under the store mutex
+/// reports that itself: `disarm` when it has completed, or `leave_locked`, which records
+/// `kvs.write.finish.locked` for a write that completed and `kvs.write.abandon.locked` for one
+/// that failed.  Args = the write's sequence number (and the store's, for `finish`).  Observer only.
+pub struct FailedWrite {
+    seq_no: u64,
+    armed: bool,
+}
+
+impl FailedWrite {
+    pub fn new(seq_no: u64) -> Self {
+        Self { seq_no, armed: true }
+    }
+
+    pub fn disarm(mut self) {
+        self.armed = false;
+    }
+
+    pub fn leave_locked(mut self, completed: bool, store_seq_no: u64) {
+        self.armed = false;
+        if completed {
+            point("kvs.write.finish.locked", [self.seq_no, store_seq_no, 0]);
+        } else {
+            point("kvs.write.abandon.locked", [self.seq_no, 0, 0]);
+        }
+    }
+}
+
+impl Drop for FailedWrite {
+    fn drop(&mut self) {
+        if self.armed {
+            point("kvs.write.failed", [self.seq_no, 0, 0]);
+            emit("kvs.write.abandon", [self.seq_no, 0, 0]);
+        }
+    }
+}
+
 ///////////////////////////////////////// scheduling observers ////////////////////////////////////////
 //
 // Who sleeps on which condition variable.  Every call below is made while the caller holds the
